@@ -156,6 +156,7 @@ def opspecs(form, fields):
             break
     is64 = bool(b64_default)
     i = 0
+    srcs = []
     list_head = None
     list_head_w = "any"
     list_head_elem = False
@@ -293,9 +294,12 @@ def opspecs(form, fields):
         else:
             spec = "(.unchecked %s)" % q(d)
         out.append(spec)
+        srcs.append(d)
         i += 1
+    if name == "b.<cond>":
+        used.add("cond")     # the condition of b.<cond> is part of the instruction id; Driver/C02.lean checks it
     free = sorted(n for n in fnames if n not in used)
-    return out, free
+    return out, free, srcs
 
 
 def apply_errata(forms):
@@ -339,9 +343,11 @@ def collect_forms(repo):
             mask, value, fields = parse_template(f["opcodeString"], f["fields"])
         except TranslateError:
             raise
-        specs, free = opspecs(f, fields)
+        specs, free, srcs = opspecs(f, fields)
         for n in names:
-            res.append({"name": n, "mask": mask, "value": value, "fields": fields, "ops": specs, "free": free,
+            res.append({"name": n, "mask": mask, "value": value, "fields": fields, "ops": specs, "free": free, "opsrc": srcs,
+                        "t": f.get("t", ""), "ta": f.get("ta", ""), "tb": f.get("tb", ""), "tatb": f.get("tatb", ""),
+                        "cond": f["name"] == "b.<cond>",
                         "src": "%s %s" % (f["name"], ", ".join(o["data"] for o in f["ops"]))})
     return res, applied
 
